@@ -97,3 +97,51 @@ class InteractionsPerSnapshots(_Read):
                 return
             ctx.oblige('C04.count_per_snapshot.dict_values', z3.Implies(pre['SKey'][q], KAPPA * v.z == pre['SCnt'][q]), tags=T)
         self.unchanged(ctx, c)
+
+
+class AvgNumberOfNodes(_Read):
+    """avg_number_of_nodes()   requires at least one snapshot
+    ensures  result * |dom Cnt| = SUM over the ascending snapshot ids t of number_of_nodes(t)   (sum() trusted; what is proved is that
+             the summed sequence has one element per snapshot id, in the order of temporal_snapshots_ids(), and that its i-th element is
+             number_of_nodes(<i-th id>) - the callee by its verified contract (C02), opaque N(t) on the caller side); nothing is modified"""
+    fname = 'avg_number_of_nodes'
+
+    def uses(self, eng):
+        from .neighbours import NumberOfNodes
+        from . import stats          # noqa: F401  (installs the caller-side form of number_of_nodes)
+        return [TemporalSnapshotsIds(self.cls), NumberOfNodes(self.cls)]
+
+    def reads(self):
+        from .neighbours import NumberOfNodes
+        return [TemporalSnapshotsIds(self.cls).key, NumberOfNodes(self.cls).key]
+
+    def setup(self, ctx, variant):
+        g = self.base(ctx)
+        q0 = fresh('q0', Int)
+        ctx.assume(g['SKey'][q0])
+        return Call(g=g, pre=g.snapshot(), argv=[VGraph(g)], kwv={}, i=fresh('i', Int))
+
+    def finish(self, ctx, c, outcome):
+        T = ('C04', 'C17')
+        if outcome[0] == 'raise':
+            return self.forbid(ctx, 'C04.avg_number_of_nodes.no_exception.%s' % outcome[1], tags=T, note=outcome[2])
+        r = outcome[1]
+        sums = getattr(ctx, 'seqsums', [])
+        card = getattr(ctx, 'card_snap', None)
+        if r.kind != 'real' or not sums or card is None:
+            return self.shape(ctx, 'C04.avg_number_of_nodes.is_a_sum_divided_by_the_number_of_snapshots', tags=T, note='result kind %s' % r.kind)
+        total, seq = sums[-1]
+        ids = seq.meta.get('of')
+        from .stats import _nn_symbol
+        NV, NA = _nn_symbol(ctx, c.g)
+        if ids is None or ids.kind != 'seq' or 'member' not in ids.meta:
+            return self.shape(ctx, 'C04.avg_number_of_nodes.sums_over_the_snapshot_ids', tags=T)
+        q = z3.Int('q?an')
+        ok_ids = ids.meta['member'](q).eq(c.pre['SKey'][q])
+        ctx.oblige('C04.avg_number_of_nodes.sums_over_the_snapshot_ids', z3.BoolVal(bool(ok_ids)), tags=T)
+        ctx.oblige('C04.avg_number_of_nodes.one_term_per_snapshot_id', seq.n == ids.n, tags=T)
+        e = seq.elem(c.i)
+        ctx.oblige('C04.avg_number_of_nodes.term_is_the_number_of_nodes_at_that_id',
+                   z3.Implies(inb(c.i, seq.n), e.z == NV(ids.elem(c.i).z)) if e.kind == 'int' else z3.BoolVal(False), tags=T)
+        ctx.oblige('C04.avg_number_of_nodes.value', r.z * z3.ToReal(card) == z3.ToReal(total), tags=T)
+        self.unchanged(ctx, c)
